@@ -7,6 +7,7 @@
 #ifndef VERIF_C48_MOCKBEHAVIOUR_HXX
 #define VERIF_C48_MOCKBEHAVIOUR_HXX
 
+#include <limits>
 #include <memory>
 #include <string>
 #include <vector>
@@ -27,6 +28,9 @@ namespace verif48 {
     std::vector<real> D;
     //! scripted answers of integrate: (ok, factor); empty: always (true, 1)
     mutable std::vector<std::pair<bool, real>> script;
+    //! parallel to `script`: the integration "succeeds" but returns non finite thermodynamic forces
+    //! (a state outside the domain of the law): the residual is not finite, the attempt cannot converge
+    mutable std::vector<char> poison;
     mutable std::size_t pos = 0;
     //! cubic non-linearity coefficient: s_i = sum_j D_ij e_j + nl * e_i^3
     real nl = 0;
@@ -150,10 +154,19 @@ namespace verif48 {
                                     const real,
                                     const mtest::StiffnessMatrixType t) const override {
       std::pair<bool, real> a{true, 1};
+      bool poisoned = false;
       if (pos < script.size()) {
+        poisoned = (pos < poison.size()) && (poison[pos] != 0);
         a = script[pos++];
       }
       if (!a.first) {
+        return a;
+      }
+      if (poisoned) {
+        for (unsigned short i = 0; i != ndv; ++i) {
+          s.s1[i] = std::numeric_limits<real>::infinity();
+        }
+        fill(wk.k, s.e0, mtest::StiffnessMatrixType::ELASTIC);
         return a;
       }
       for (unsigned short i = 0; i != ndv; ++i) {
